@@ -247,6 +247,9 @@ pub struct Agg {
     pub crashed_ranges: u64,
     /// (index, hash) pairs kept for the determinism re-check
     pub recheck: Vec<(u64, u64)>,
+    /// every (index, hash), kept only by the self-test
+    pub keep_all: bool,
+    pub all: Vec<(u64, u64)>,
 }
 
 const HASH_CAP: usize = 4_000_000;
@@ -269,6 +272,9 @@ impl Agg {
                 self.hashes_nontrivial.insert(*h);
             }
             let index = start + i as u64;
+            if self.keep_all {
+                self.all.push((index, *h));
+            }
             if index % 97 == 0 && self.recheck.len() < 64 {
                 self.recheck.push((index, *h));
             }
@@ -387,7 +393,10 @@ pub fn search(
         }));
     }
     drop(tx);
-    let mut agg = Agg::default();
+    let mut agg = Agg {
+        keep_all: std::env::var("VERIF_KEEP_HASHES").is_ok(),
+        ..Default::default()
+    };
     for (start, msg) in rx {
         match msg {
             Ok(r) => agg.absorb(start, r),
@@ -830,5 +839,59 @@ fn truncate_json(v: &Value, max: usize) -> Value {
         v.clone()
     } else {
         json!({"truncated": true, "head": s.chars().take(max).collect::<String>()})
+    }
+}
+
+
+/// Determinism self-test: every scenario runs the same seeds with 1, 4 and 16
+/// worker processes (different processes, different chunking) and the full
+/// trace hashes must agree run by run. Exit 2 on any difference.
+pub fn selftest(tier: Tier, base_seed: u64) -> i32 {
+    std::env::set_var("VERIF_KEEP_HASHES", "1");
+    let n: u64 = if tier == Tier::Quick { 300 } else { 5000 };
+    let mut bad = 0;
+    let mut report = vec![];
+    for sc in scenarios::all() {
+        if sc.id() == "C18" && !cfg!(feature = "cksum") {
+            continue;
+        }
+        let opts = RunOpts {
+            tier: Tier::Quick,
+            avoid: vec![],
+        };
+        let mut reference: Option<BTreeMap<u64, u64>> = None;
+        let mut mism = 0u64;
+        for w in [1usize, 4, 16] {
+            std::env::set_var("VERIF_WORKERS", w.to_string());
+            let agg = search(sc, base_seed, n, Duration::from_secs(600), &opts);
+            let map: BTreeMap<u64, u64> = agg.all.iter().copied().collect();
+            match &reference {
+                None => reference = Some(map),
+                Some(r) => {
+                    for (k, v) in &map {
+                        if r.get(k) != Some(v) {
+                            mism += 1;
+                        }
+                    }
+                    if r.len() != map.len() {
+                        mism += (r.len() as i64 - map.len() as i64).unsigned_abs();
+                    }
+                }
+            }
+        }
+        println!("selftest scenario={} seeds={} worker_counts=1,4,16 mismatches={}", sc.id(), n, mism);
+        report.push(json!({"scenario": sc.id(), "seeds": n, "worker_counts": [1, 4, 16], "mismatches": mism}));
+        if mism > 0 {
+            bad += 1;
+        }
+    }
+    std::env::remove_var("VERIF_WORKERS");
+    let path = format!("{VERIF_DIR}/evidence/selftest.json");
+    let _ = std::fs::write(&path, serde_json::to_string_pretty(&json!({"tier": format!("{tier:?}"), "seed": base_seed, "scenarios": report})).unwrap());
+    if bad > 0 {
+        eprintln!("HARNESS ERROR: {bad} scenario(s) are not deterministic");
+        2
+    } else {
+        0
     }
 }
